@@ -1,12 +1,14 @@
 import OtelVerif.Model.Idx
 import OtelVerif.Model.KvList
+import OtelVerif.Model.KvTokIdx
 import OtelVerif.Gen.Baggage
 /-! `baggage/baggage.h` (`UrlEncode`, `UrlDecode`, `FromHeader`, `ToHeader`, `Set`, `Delete`, `GetValue`) on top of the
     tokenizer and the fixed-capacity entry array of `common/kv_properties.h` (`Model/KvList.lean`; Baggage uses the
     default tokenizer options: `,` / `=` / `ignore_empty_members = true`).
 
     `UrlDecode` is modelled with explicit indices: every `str[i]`, `str[i + 1]`, `str[i + 2]` is a checked read
-    (`Fault.oob` outside the string).  The tokenizer (`find` / `Trim` / `substr`) is modelled at list level. -/
+    (`Fault.oob` outside the string).  `FromHeader` runs the index-explicit tokenizer and `Trim` of
+    `Model/KvTokIdx.lean`; only `NumTokens` (which has no index access of its own) is taken at list level. -/
 namespace Otel
 namespace Baggage
 
@@ -74,29 +76,31 @@ def splitMeta (v : Bytes) : Bytes × Bytes :=
     a stored string ends at its first NUL byte -/
 def cstr (s : Bytes) : Bytes := s.takeWhile (· != 0)
 
-/-- the body of the `FromHeader` loop for one list member; `ok none` = the member is skipped -/
-def parseMember (m : Bytes) : Res (Option (Bytes × Bytes)) :=
-  match splitKv Gen.baggageKvSep m with
+/-- the body of the `FromHeader` loop for one result of `tokenizer.next`; `kv = none` is `kv_valid = false`;
+    `ok none` = the member is skipped -/
+def parseKv (kv : Option (Bytes × Bytes)) : Res (Option (Bytes × Bytes)) :=
+  match kv with
   | none => .ok none
   | some (k, v) =>
     if k.length + v.length > Gen.baggageMaxKeyValueSize then .ok none
     else
       let vm := splitMeta v
-      (urlDecode (trim k)).bind fun kd => (urlDecode (trim vm.1)).bind fun vd =>
+      (KvIdx.trim1 k).bind fun kt => (urlDecode kt).bind fun kd =>
+      (KvIdx.trim1 vm.1).bind fun vt => (urlDecode vt).bind fun vd =>
         match kd, vd with
         | some ks, some vs =>
           if isValidKey ks && isValidValue vs then .ok (some (cstr ks, cstr (vs ++ vm.2))) else .ok none
         | _, _ => .ok none
 
-/-- `while (tokenizer.next(...) && baggage->Size() < cnt)` over the list members -/
-def fromHeaderLoop (cnt : Nat) : List Bytes → KvProps → Res KvProps
+/-- `while (tokenizer.next(...) && baggage->Size() < cnt)` over the results of `next` -/
+def fromHeaderLoop (cnt : Nat) : List (Option (Bytes × Bytes)) → KvProps → Res KvProps
   | [], p => .ok p
-  | m :: ms, p =>
+  | kv :: rest, p =>
     if p.entries.length < cnt then
-      (parseMember m).bind fun r =>
+      (parseKv kv).bind fun r =>
         match r with
-        | none => fromHeaderLoop cnt ms p
-        | some (k, v) => fromHeaderLoop cnt ms (p.add k v)
+        | none => fromHeaderLoop cnt rest p
+        | some (k, v) => fromHeaderLoop cnt rest (p.add k v)
     else .ok p
 
 /-- `Baggage::FromHeader` → the ordered entries of the result -/
@@ -105,7 +109,8 @@ def fromHeader (h : Bytes) : Res Entries :=
   else
     let n := numTok Gen.baggageMemberSep h
     let cnt := if n > Gen.baggageMaxPairs then Gen.baggageMaxPairs else n
-    (fromHeaderLoop cnt (members Gen.baggageMemberSep h) ⟨cnt, []⟩).map (·.entries)
+    (KvIdx.tokens h Gen.baggageMemberSep Gen.baggageKvSep).bind fun toks =>
+      (fromHeaderLoop cnt toks ⟨cnt, []⟩).map (·.entries)
 
 /-- the value as `ToHeader` writes it: the part before the first `;` encoded, the metadata raw -/
 def encodeValue (v : Bytes) : Bytes :=
